@@ -1,13 +1,16 @@
 package harness
 
 import (
+	"errors"
 	"fmt"
+	"math/big"
 	"os"
 	"path/filepath"
 	"sort"
 	"sync"
 	"testing"
 
+	aggkitsync "github.com/agglayer/aggkit/sync"
 	"github.com/ethereum/go-ethereum/common"
 	"pgregory.net/rapid"
 
@@ -300,6 +303,41 @@ func c04Prop(rt *rapid.T, rec *ev.Recorder) {
 			key += "R"
 		}
 		B := twinCompare(rt, rec, k, A, survivors, buggy, orphanHashes, fmt.Sprintf("after Reorg(%d) #%d", pt, r+1))
+		if k == kBridge && rapid.IntRange(0, 4).Draw(rt, "holeOnTheNewFork") == 0 {
+			// the new fork reaches the node with a hole: its first deposit is ahead of the count the surviving blocks end
+			// with (deposits lost on the way - the situation the node's gap detection exists for). A node that only ever saw
+			// the surviving blocks notices it and halts; so must this one. The size of the hole is drawn from 1..6 and from
+			// the number of deposits the reorg has just removed.
+			after := worldOf(k, kept).nextDC
+			removed := worldOf(k, append(append([]blkSpec{}, kept...), dropped...)).nextDC - after
+			gap := uint32(rapid.IntRange(1, 6).Draw(rt, "hole"))
+			if removed > 0 && rapid.Bool().Draw(rt, "holeAsLargeAsWhatTheReorgRemoved") {
+				gap = removed
+			}
+			num := uint64(1)
+			if len(kept) > 0 {
+				num = kept[len(kept)-1].Num + 1
+			}
+			d := genBridge(rt)
+			d.BlockNum, d.BlockPos, d.DepositCount = num, 0, after+gap
+			bad := blkSpec{Num: num, Hash: common.BigToHash(big.NewInt(int64(num) + 7777)), Evs: []evSpec{{Kind: "bridge", Bridge: &d}}}
+			eb := B.process(bad)
+			ea := A.process(bad)
+			closeTwin(B)
+			if !errors.Is(eb, aggkitsync.ErrInconsistentState) {
+				fatal(rt, "INCONCLUSIVE: the twin accepted a deposit with count %d while it holds %d (%v)", after+gap, after, eb)
+			}
+			if !errors.Is(ea, aggkitsync.ErrInconsistentState) {
+				fatal(rt, "after Reorg(%d), which removed %d deposits, the new fork's first deposit arrives with count %d while the surviving blocks end at count %d: a node that only saw the surviving blocks reports the inconsistency (%v), this node's ProcessBlock returned %v", pt, removed, after+gap, after, eb, ea)
+			}
+			rec.Class("new_fork_with_a_hole")
+			if gap == removed {
+				rec.Class("new_fork_with_a_hole_as_large_as_what_the_reorg_removed")
+				nontrivial = true
+			}
+			key += fmt.Sprintf("reorg%d-%d/%d hole%d|", pt, len(dropped), len(kept), gap)
+			break
+		}
 		// new fork
 		nCont := rapid.IntRange(0, 5).Draw(rt, "nCont")
 		contOpts := opts
